@@ -39,7 +39,9 @@ def pick_contracts(seed):
     out = []
     for fam, pred in want:
         pool = f1 if fam == "f1" else f3
-        c = next((c for c in pool if pred(c["desc"]) and c not in out), pool[len(out)])
+        c = next((c for c in pool if pred(c["desc"]) and c not in out), None)
+        if c is None:
+            raise fw.Machinery("session pool: no generated contract matches selector %d" % (len(out) + 1))
         out.append(c)
     return out
 
